@@ -19,6 +19,8 @@ def main(tier):
     res.merge(histrun.run(PROP, b, n, {}, ORACLES, salt="h"))
     # the daemon's own injections (bounces) fail now and then: exit 53/51/31, crash, custom text, early stop
     res.merge(histrun.run(PROP, b, core.scaled(120 if quick else 2000), {"qq_fail": 0.35}, ORACLES, salt="qf"))
+    # a spawner dies (EOF on its report pipe) with deliveries outstanding: nothing of them may be marked
+    res.merge(histrun.run(PROP, b, core.scaled(80 if quick else 1500), {"p_spawner_eof": 0.06, "hold_reports": 0.5}, ORACLES, salt="se"))
     # random crashes at quiescent points, both disk variants
     nc = core.scaled(80 if quick else 1500)
     res.merge(histrun.run(PROP, b, nc, {"p_crash": 0.12, "variant": "keep-all"}, ORACLES, salt="ck"))
